@@ -27,6 +27,9 @@ ALLOW = {}
 CATCH_ALL = [None]
 # app label -> alias: the answer to allow_migrate(db, app_label) without a model name
 APP_LEVEL = {}
+# False: a router that only says where models are MIGRATED (allow_migrate) and has no opinion of its own on reads
+# and writes (db_for_read / db_for_write answer the catch-all, or nothing)
+RW_OPINION = [True]
 
 
 class Router(object):
@@ -43,6 +46,8 @@ class Router(object):
     allow_syncdb = allow_migrate
 
     def db_for_read(self, model, **hints):
+        if not RW_OPINION[0]:
+            return CATCH_ALL[0]
         return ALLOW.get((model._meta.app_label, model._meta.model_name), CATCH_ALL[0])
 
     db_for_write = db_for_read
@@ -53,8 +58,9 @@ class Router(object):
 """
 
 
-def set_routes(mapping, catch_all=None, app_level=None):
+def set_routes(mapping, catch_all=None, app_level=None, rw_opinion=True):
     import vrouter
+    vrouter.RW_OPINION[0] = bool(rw_opinion)
     vrouter.ALLOW.clear()
     vrouter.ALLOW.update(mapping)
     vrouter.CATCH_ALL[0] = catch_all
